@@ -10,6 +10,8 @@ CONSTANTS
   BodyPanics = TRUE
   BodyUsesPool = FALSE
   JoinerOnPool = FALSE
+  ReceiverDrops = TRUE
+  SkipIfReceiverGone = FALSE
 INIT TraceInit
 NEXT TraceNext
 POSTCONDITION Accept
